@@ -22,6 +22,7 @@ Definition reachable : list string := [].
 Definition calls : list (string * list string) := [].
 Definition shared_writes : list swrite := [].
 Definition unclassified : list swrite := [].
+Definition results_shared : list swrite := [].
 Definition globals_read : list string := [].
 Definition external_globals_read : list string := [].
 Definition w_analysed : list string := [].
@@ -30,6 +31,17 @@ Definition w_reachable : list string := [].
 Definition w_calls : list (string * list string) := [].
 Definition w_shared_writes : list swrite := [].
 Definition w_unclassified : list swrite := [].
+Definition w_results_shared : list swrite := [].
+Definition m_analysed : list string := [].
+Definition m_missing : list string := [].
+Definition m_reachable : list string := [].
+Definition m_calls : list (string * list string) := [].
+Definition m_shared_writes : list swrite := [].
+Definition m_unclassified : list swrite := [].
+Definition m_results_shared : list swrite := [].
+Definition m_globals_read : list string := [].
+Definition m_external_globals_read : list string := [].
+Definition m_receiver_writes : list swrite := [].
 Definition w_globals_read : list string := [].
 Definition w_external_globals_read : list string := [].
 Definition package_globals : list string := [].
@@ -62,7 +74,7 @@ def _c19_regen(repo=None):
         reps = sorted(glob.glob(os.path.join(root, "build", "effects", "report-*.txt")), key=os.path.getmtime)
         if reps:
             rep = open(reps[-1]).read()
-        bad = [l for l in rep.splitlines() if l.startswith(("SHARED-WRITE", "UNCLASSIFIED", "MISSING"))] + \
+        bad = [l for l in rep.splitlines() if l.startswith(("SHARED-WRITE", "UNCLASSIFIED", "MISSING", "RESULT-ALIASES"))] + \
               [l for l in rep.splitlines() if l.startswith("GLOBAL-WRITER")]
         _c19_state["report"] = "effect model regenerated from %s:\n%s" % (repo, "\n".join(bad)[:2400])
     if repo != "/repo" and not _c19_state["restore"]:
